@@ -85,6 +85,10 @@ class InverterProtocol:
         if self.response_future and not self.response_future.done():
             self.response_future.cancel()
 
+    def _response_awaited(self) -> bool:
+        """Answer if there is a request still waiting for its response"""
+        return self.response_future is not None and not self.response_future.done()
+
     async def close(self) -> None:
         """Close the underlying transport/connection."""
         raise NotImplementedError()
@@ -156,16 +160,17 @@ class UdpInverterProtocol(InverterProtocol, asyncio.DatagramProtocol):
                 self._partial_missing = 0
             if self.command.validator(data):
                 logger.debug("Received: %s", data.hex())
-                self._retry = 0
                 self.response_future.set_result(data)
-            else:
+                self._retry = 0
+            elif self._response_awaited():
                 logger.debug("Received invalid response: %s", data.hex())
                 asyncio.get_running_loop().call_soon(self._timeout_mechanism)
         except PartialResponseException as ex:
             logger.debug("Received response fragment (%d of %d): %s", ex.length, ex.expected, data.hex())
-            self._partial_data = data
-            self._partial_missing = ex.expected - ex.length
-            self._timer = asyncio.get_running_loop().call_later(self.timeout, self._timeout_mechanism)
+            if self._response_awaited():
+                self._partial_data = data
+                self._partial_missing = ex.expected - ex.length
+                self._timer = asyncio.get_running_loop().call_later(self.timeout, self._timeout_mechanism)
         except asyncio.InvalidStateError:
             logger.debug("Response already handled: %s", data.hex())
         except RequestRejectedException as ex:
@@ -305,17 +310,18 @@ class TcpInverterProtocol(InverterProtocol, asyncio.Protocol):
                 self._partial_missing = 0
             if self.command.validator(data):
                 logger.debug("Received: %s", data.hex())
-                self._retry = 0
                 self.response_future.set_result(data)
+                self._retry = 0
             else:
                 logger.debug("Received invalid response: %s", data.hex())
                 self.response_future.set_exception(RequestRejectedException())
                 self._close_transport()
         except PartialResponseException as ex:
             logger.debug("Received response fragment (%d of %d): %s", ex.length, ex.expected, data.hex())
-            self._partial_data = data
-            self._partial_missing = ex.expected - ex.length
-            self._timer = asyncio.get_running_loop().call_later(self.timeout, self._timeout_mechanism)
+            if self._response_awaited():
+                self._partial_data = data
+                self._partial_missing = ex.expected - ex.length
+                self._timer = asyncio.get_running_loop().call_later(self.timeout, self._timeout_mechanism)
         except asyncio.InvalidStateError:
             logger.debug("Response already handled: %s", data.hex())
         except RequestRejectedException as ex:
